@@ -1,13 +1,14 @@
 package main
 
 import (
+	"errors"
+	"fmt"
+	"github.com/advancedclimatesystems/gonnx"
+	"math"
+	"math/rand"
 	"os"
 	"reflect"
 	"runtime"
-	"errors"
-	"fmt"
-	"math"
-	"math/rand"
 	"strconv"
 	"strings"
 
@@ -613,6 +614,132 @@ func determinismObservation(op string, attrs []attr, mkIns func() []tensor.Tenso
 	}
 }
 
+var runAll = goOnlyResult{Stream: "through_run", Rule: "a node in a graph computes what its operator computes: the case as a single-node model (every input a fed graph input declared with dynamic dimensions, the node's outputs the graph outputs), loaded from bytes and Run, gives bit for bit the tensors of the operator API -- and an error where the operator API refuses (the first six cases of every operator and attribute list, one in sixteen afterwards)", Violations: []string{}}
+var runSeen = map[string]int{}
+var runCounter = 0
+
+func throughRunObservation(op string, attrs []attr, mkIns func() []tensor.Tensor, obs string) {
+	if obs == "OPanic" {
+		return
+	}
+	for _, n := range nodeOutputs {
+		if n == "" {
+			return
+		}
+	}
+	names := make([]string, len(attrs))
+	var ap []*onnx.AttributeProto
+	for i, a := range attrs {
+		names[i] = a.name
+		ap = append(ap, a.proto())
+	}
+	key := op + "|" + strings.Join(names, ";")
+	runSeen[key]++
+	if runSeen[key] > 6 {
+		runCounter++
+		if runCounter%16 != 0 {
+			return
+		}
+	}
+	// the operator API, tensors kept
+	var want []tensor.Tensor
+	wantKind := func() (k string) {
+		defer func() {
+			if r := recover(); r != nil {
+				k = "panic"
+			}
+		}()
+		o, err := opset13.GetOperator(op)
+		if err != nil {
+			return "error"
+		}
+		if err := o.Init(&onnx.NodeProto{Attribute: ap, Output: nodeOutputs}); err != nil {
+			return "error"
+		}
+		v, err := o.ValidateInputs(mkIns())
+		if err != nil {
+			return "error"
+		}
+		out, err := o.Apply(v)
+		if err != nil {
+			return "error"
+		}
+		want = out
+		return "ok"
+	}()
+	if wantKind == "panic" || (wantKind == "ok" && len(want) < len(nodeOutputs)) {
+		return
+	}
+	fm := func() (m *fxModel) {
+		defer func() {
+			if r := recover(); r != nil {
+				m = nil
+			}
+		}()
+		return buildFxModelD(op, fixture{attrs: ap, outputs: nodeOutputs, inputs: mkIns}, len(mkIns()), false)
+	}()
+	if fm == nil {
+		return
+	}
+	runAll.N++
+	got := ""
+	m, err := gonnx.NewModelFromBytes(fm.bytes)
+	if err != nil {
+		got = "the model does not load: " + err.Error()
+		if wantKind == "error" {
+			got = ""
+		}
+	} else {
+		out, err, pan := runRec(m, fm.mkInputs())
+		switch {
+		case pan:
+			got = fmt.Sprintf("Run panics: %v", err)
+		case err != nil && wantKind == "ok":
+			got = fmt.Sprintf("Run fails (%v) although the operator API computes %s", err, clip(tvals(want), 200))
+		case err == nil && wantKind == "error":
+			got = "Run succeeds although the operator API refuses the case"
+		case err == nil:
+			for i, n := range fm.outNames {
+				if out[n] == nil || tval(out[n]) != tval(want[i]) {
+					g := "nothing"
+					if out[n] != nil {
+						g = tval(out[n])
+					}
+					got = fmt.Sprintf("output %s of Run is %s, the operator API gives %s", n, clip(g, 200), clip(tval(want[i]), 200))
+					break
+				}
+			}
+		}
+	}
+	if got != "" && len(runAll.Violations) < 10 {
+		ag := make([]string, len(attrs))
+		for i, x := range attrs {
+			ag[i] = x.gallina()
+		}
+		runAll.Violations = append(runAll.Violations, fmt.Sprintf("%s [%s] on %s as a single-node model: %s", op, strings.Join(ag, ";"), clip(tvals(mkIns()), 300), got))
+	}
+}
+
+var spareAll = goOnlyResult{Stream: "spare_capacity", Rule: "the input list is what lies within its LENGTH: the same case handed over as a slice with spare capacity whose hidden slots still hold tensors of an earlier call (an int64 vector, a float32 matrix) must have the same outcome -- omitted optional inputs are absent, not whatever lies behind the end of the list", Violations: []string{}}
+
+func spareCapacityObservation(op string, attrs []attr, mkIns func() []tensor.Tensor, obs string) {
+	ins := mkIns()
+	buf := make([]tensor.Tensor, len(ins), len(ins)+3)
+	copy(buf, ins)
+	hidden := buf[:cap(buf)]
+	hidden[len(ins)] = tensor.New(tensor.WithShape(1), tensor.WithBacking([]int64{0}))
+	hidden[len(ins)+1] = tensor.New(tensor.WithShape(1, 1), tensor.WithBacking([]float32{7}))
+	hidden[len(ins)+2] = tensor.New(tensor.WithShape(2), tensor.WithBacking([]int64{1, -1}))
+	spareAll.N++
+	if got := observe(op, attrs, buf); got != obs && len(spareAll.Violations) < 10 {
+		ap := make([]string, len(attrs))
+		for i, x := range attrs {
+			ap[i] = x.gallina()
+		}
+		spareAll.Violations = append(spareAll.Violations, fmt.Sprintf("%s [%s] on %s: as a slice with stale tensors behind its length the outcome is %s, as an exact slice it is %s", op, strings.Join(ap, ";"), clip(tvals(mkIns()), 300), clip(got, 300), clip(obs, 300)))
+	}
+}
+
 func attrOrderObservation(op string, attrs []attr, mkIns func() []tensor.Tensor, obs string) {
 	if len(attrs) < 2 {
 		return
@@ -788,6 +915,8 @@ func sideObservations(op string, attrs []attr, mkIns func() []tensor.Tensor, obs
 	}
 	refillObservation(op, attrs, mkIns)
 	determinismObservation(op, attrs, mkIns, obs)
+	spareCapacityObservation(op, attrs, mkIns, obs)
+	throughRunObservation(op, attrs, mkIns, obs)
 	attrOrderObservation(op, attrs, mkIns, obs)
 	aliasObservation(op, attrs, mkIns)
 	if os.Getenv("VERIF_VIEWS") != "" {
